@@ -122,6 +122,19 @@ func mkTable(r *hutil.Rng, variant int, sepKeys bool) table {
 			t.pairs = append(t.pairs, all[i-1])
 			t.setup = append(t.setup, fmt.Sprintf("INSERT INTO t_doc (ID,docname,ver,body) VALUES (%d,'%s',%s,'%s')", i, all[i-1][0], all[i-1][1], str(r.Intn(5))))
 		}
+	case 6, 7:
+		// non-integer numeric keys with large and small magnitudes (rendered with an exponent by %v)
+		t.name, t.pk = "t_px", []int{0}
+		ty := "DOUBLE"
+		if variant == 7 {
+			t.name, ty = "t_dc", "DECIMAL(14,5)"
+		}
+		t.cols = []ColMeta{{"amt", "num", false}, {"v", "int", false}}
+		t.ddl = "CREATE TABLE " + t.name + " (amt " + ty + " NOT NULL, v INT NOT NULL DEFAULT 0, PRIMARY KEY (amt))"
+		t.nkeys = 6
+		for i, a := range []string{"1250000", "12.5", "0.00005", "3", "2500000.5", "10000000"} {
+			t.setup = append(t.setup, fmt.Sprintf("INSERT INTO %s (amt,v) VALUES (%s,%d)", t.name, a, i))
+		}
 	case 4:
 		t.name, t.pk = "t_rev", []int{0, 1}
 		t.cols = []ColMeta{{"a", "int", false}, {"b", "str", false}, {"v", "int", true}}
@@ -562,7 +575,24 @@ func buildScenario(r *hutil.Rng, i int, stream string, prop string) (atrun.Scena
 	}
 	t := mkTable(r, variant, pred == "lockkey.separator")
 	onlyCare := r.Chance(1, 2)
-	sc := atrun.Scenario{Name: fmt.Sprintf("%s-%s-%d", prop, strings.ReplaceAll(stream, ":", "-"), i), Setup: append([]string{t.ddl}, t.setup...)}
+	setup := append([]string{t.ddl}, t.setup...)
+	qualified := pred == "" && variant != 5 && r.Chance(1, 8)
+	if qualified {
+		// the statements address `oth`.<table>: a same-named table with the same keys but other contents lives in the
+		// connection's own schema
+		for _, q := range append([]string{t.ddl}, t.setup...) {
+			q = strings.Replace(q, "CREATE TABLE "+t.name, "CREATE TABLE oth."+t.name, 1)
+			setup = append(setup, strings.Replace(q, "INSERT INTO "+t.name, "INSERT INTO oth."+t.name, 1))
+		}
+		for c := range t.cols {
+			if !t.isPK(c) && t.cols[c].Kind == "int" {
+				setup = append(setup, "UPDATE "+t.name+" SET "+t.cols[c].Name+" = "+t.cols[c].Name+" + 500")
+				break
+			}
+		}
+		t.name = "oth." + t.name
+	}
+	sc := atrun.Scenario{Name: fmt.Sprintf("%s-%s-%d", prop, strings.ReplaceAll(stream, ":", "-"), i), Setup: setup}
 	sc.Config.OnlyCareUpdateColumns = &onlyCare
 	meta := Meta{Stream: stream, Table: t.name, Cols: t.cols, PK: t.pk, AutoInc: t.auto, OnlyCare: onlyCare}
 	body := []atrun.Step{{Op: "dump", Tables: []string{t.name}}}
@@ -655,6 +685,11 @@ func buildScenario(r *hutil.Rng, i int, stream string, prop string) (atrun.Scena
 			}
 			sm.MatchPath = fmt.Sprintf("0.%d", len(body))
 			body = append(body, atrun.Step{Op: "query", Via: "bare", NoCtx: true, SQL: sel, Args: margs})
+		}
+		if qualified {
+			sm.Expect = "reject-db" // a schema-qualified table is outside what the executors describe: refused, or exact
+		} else if sm.Kind != "upsert" && !strings.Contains(stream, "finding") && r.Chance(1, 6) {
+			sql = strings.Replace(sql, " "+t.name, " `"+t.name+"`", 1) // back-quoted table name
 		}
 		sm.DumpPre = fmt.Sprintf("0.%d", lastDump(body))
 		sm.Path = fmt.Sprintf("0.%d", len(body))
